@@ -183,6 +183,8 @@ def exec_new(ctx, league, op):
     kw = {}
     if "label" in op:
         kw["label"] = op["label"]
+    if "clone_of" in op:
+        kw["clone_of"] = op["clone_of"]
     if "mu" in op:
         kw.update(mu=dec(op["mu"]), has_mu=True)
     if "sigma" in op:
@@ -1310,6 +1312,8 @@ class StoreDriver:
         ctx = self.ctx
         for L in (self.A, self.B):
             r = exec_new(ctx, L, op)
+            if "clone_of" in op and op["clone_of"] in L.players:
+                continue  # a deep copy of a template (same id by design), not a built rating
             ctx.evaluations += 1
             m = L.model
             want_mu = dec(op["mu"]) if "mu" in op else dec(ctx.cfg["kwargs"]["mu"])
